@@ -257,6 +257,29 @@ fn gen_constructor(r: &mut Rng, t: usize, prof: Profile) -> Op {
     }
 }
 
+/// A text of the same length as `m` that differs from it in ONE character of the same UTF-8 width, placed
+/// late in the text (never in the first machine word when the text is longer than that): handles whose first
+/// word, length and last byte agree but whose texts differ.
+fn near_duplicate(r: &mut Rng, m: &str) -> Option<String> {
+    let idx: Vec<(usize, char)> = m.char_indices().collect();
+    if idx.is_empty() {
+        return None;
+    }
+    let late: Vec<&(usize, char)> = idx.iter().filter(|(i, _)| *i >= 8 && *i + 1 < m.len()).collect();
+    let &(i, c) = if !late.is_empty() && r.chance(3, 4) { *r.pick(&late) } else { r.pick(&idx) };
+    let repl = match c.len_utf8() {
+        1 => if c == 'q' { 'Q' } else { 'q' },
+        2 => if c == 'é' { 'ü' } else { 'é' },
+        3 => if c == '世' { '界' } else { '世' },
+        _ => if c == '𐀀' { '😀' } else { '𐀀' },
+    };
+    let mut s = String::with_capacity(m.len());
+    s.push_str(&m[..i]);
+    s.push(repl);
+    s.push_str(&m[i + c.len_utf8()..]);
+    Some(s)
+}
+
 pub struct Gen {
     pub prof: Profile,
     /// probability (per 1000 steps) of injecting an allocation fault into the step
@@ -304,6 +327,12 @@ impl Gen {
             {
                 let src = *r.pick(&occ);
                 return self.clone_op(r, t, src);
+            }
+            if !occ.is_empty() && r.chance(1, 6) {
+                let src = *r.pick(&occ);
+                if let Some(s) = near_duplicate(r, pool.model[src].as_ref().unwrap()) {
+                    return Op::FromStr { t, s };
+                }
             }
             return gen_constructor(r, t, prof);
         }
@@ -356,6 +385,31 @@ impl Gen {
                     return Op::Reserve { t, n, try_ };
                 }
             }
+            Profile::Static => {
+                // "landing" steps: cut a text to exactly the inline limit (of either pointer width) or next
+                // to it, and once a text sits there, run the operations that ask for NO extra room - the
+                // zero-growth conversions of a borrowed text (reserve(0), empty pieces, iterators whose
+                // size hint is 0) are a path of their own in the crate.
+                let ic = crate::ops::INLINE_CAP;
+                let landing = [ic, ic - 1, ic + 1, 8, 16, 0];
+                if len > 0 && (len.abs_diff(ic) <= 1 || len.abs_diff(16) <= 1) && r.chance(1, 2) {
+                    let i = gen_index(r, m, true, true);
+                    return match r.below(9) {
+                        0..=1 => Op::Reserve { t, n: 0, try_ },
+                        2 => Op::InsertStr { t, i, s: String::new(), try_ },
+                        3 => Op::PushStr { t, s: String::new(), try_ },
+                        4 => Op::Extend { t, kind: *r.pick(&ITEM_KINDS), items: gen_items(r, 2, None), hint: Some(0) },
+                        5 => Op::Extend { t, kind: *r.pick(&ITEM_KINDS), items: Vec::new(), hint: None },
+                        6 => Op::AddAssign { t, s: String::new() },
+                        7 => Op::Write { t, pieces: vec![String::new()] },
+                        _ => Op::ShrinkTo { t, n: 0, try_ },
+                    };
+                }
+                if len > ic && r.chance(1, 6) {
+                    let n = m.floor_char_boundary((*r.pick(&landing)).min(len));
+                    return if r.chance(1, 4) && len - n <= 4 { Op::Pop { t, try_ } } else { Op::Truncate { t, n, try_ } };
+                }
+            }
             Profile::Shrink => {
                 if r.chance(2, 5) {
                     let n = match r.below(9) {
@@ -393,7 +447,14 @@ impl Gen {
                 4..=5 => {
                     // clone_from onto another occupied/free slot
                     let cands: Vec<usize> = (0..NSLOTS).filter(|&i| i != t).collect();
-                    let d = *r.pick(&cands);
+                    // prefer a destination that holds a different text of the same length (near-duplicates
+                    // are where a "nothing to do" shortcut in clone_from would go wrong)
+                    let twins: Vec<usize> = cands
+                        .iter()
+                        .copied()
+                        .filter(|&i| pool.model[i].as_ref().is_some_and(|o| o.len() == len && o != m))
+                        .collect();
+                    let d = if !twins.is_empty() && r.chance(2, 3) { *r.pick(&twins) } else { *r.pick(&cands) };
                     Op::CloneFrom { t: d, src: t }
                 }
                 6..=8 => Op::Drop { t },
